@@ -50,7 +50,7 @@ def run(ctx: core.Ctx) -> core.Report:
                 "extra options, 1..2 entries per message, unicast and multicast, against 0..3 instances (running, withdrawn, never "
                 "announced, wildcard ids; at most one matches), accept/reject policies, arbitrary prior subscription state; the "
                 "multiset of SubscribeAck entries on the wire is compared with the reference; every step compared with the model")
-    stateful.run_scenarios(ctx, rep, make, oracle, ctx.n(80, 1500), "c11")
+    stateful.run_scenarios(ctx, rep, make, oracle, ctx.n(200, 3000), "c11")
     return rep
 
 
